@@ -6,8 +6,12 @@ package props
 // generation of small cases reaches; they are not random and claim nothing beyond themselves.
 
 import (
+	"bytes"
 	"fmt"
 	"testing"
+
+	u "github.com/utreexo/utreexo"
+	"verifharness/model"
 )
 
 // scaleHistory builds a history on n = 2^k leaves (k >= 6) that produces, in this order: one big
@@ -526,4 +530,137 @@ func emptyTreeHistory(n int) []Block {
 	}
 	bs = append(bs, Block{Del: d, Add: 3, Rem: []int{2}, DM: "scale-third", AM: "3"})
 	return bs
+}
+
+// preHighC13: serialization of a map forest whose leaf count does not fit 32 (or 48) bits. A partial
+// forest is started from the bare roots of a small generated-by-hand forest embedded behind 2^k (+2^j)
+// opaque leaves, remembers a few leaves through Verify, is written, restored through a one-byte reader,
+// and both copies take two more blocks (additions only, then a deletion of a remembered leaf). Leaf
+// count, roots, every stored node, the remembered leaves' positions and every strict prefix of the
+// stream are compared. Deterministic, dealt over shards.
+func preHighC13(t *testing.T) {
+	if *flagNoExh {
+		return
+	}
+	shard, nshards := shardOf()
+	highs := []uint64{1 << 31, 1 << 32, 1<<32 | 1<<40, 1 << 47, 1 << 48, 1<<56 | 1<<33, 1 << 62, 1<<62 | 1<<61}
+	done := 0
+	for ui, high := range highs {
+		if ui%nshards != shard {
+			continue
+		}
+		for _, small := range [][]Block{
+			{{Add: 5}, {Del: []int{1}, Add: 0}},
+			{{Add: 12}, {Del: []int{0, 1, 6}, Add: 1}},
+			{{Add: 7}},
+		} {
+			done++
+			c := C13Case{HighProbe: &c13High{High: high, Blocks: small}}
+			if res := safeRun(runC13, c); res.Err != nil {
+				rec.fail(res.Err.Error(), caseJSON(c), false)
+				t.Fatalf("serialization probe behind %d opaque leaves: %v", high, res.Err)
+			}
+		}
+	}
+	rec.bulk(done, done)
+	rec.extra("huge_leaf_count_probes", "a partial map forest started from bare roots with 2^31 .. 2^62+2^61 opaque leaves in front of a small real forest: written, restored (whole and every strict prefix), continued with two blocks on both copies")
+}
+
+func highC13Unit(high uint64, blocks []Block) error {
+	f := &model.Forest{}
+	for _, b := range blocks {
+		applyToModel(f, b)
+	}
+	v := f.View()
+	if !highOK(high, f.N()+8) {
+		return fmt.Errorf("harness error: %d leaves do not fit below %d", f.N()+8, high)
+	}
+	roots := append(highRoots(high), v.Roots...)
+	m := u.NewMapPollardFromRoots(cloneHashes(roots), high+v.N, false)
+	live := f.Live()
+	req := []int{live[0], live[len(live)-1]}
+	hs := f.HashesOf(req)
+	pr := v.Proof(hs)
+	ep := u.Proof{Targets: embedAll(pr.Targets, v, high), Proof: cloneHashes(pr.Proof)}
+	if err := m.Verify(cloneHashes(hs), cloneProof(ep), true); err != nil {
+		return fmt.Errorf("setup: Verify(remember) of an honest embedded proof failed: %v", err)
+	}
+	var buf bytes.Buffer
+	n, err := m.Write(&buf)
+	if err != nil || n != buf.Len() {
+		return fmt.Errorf("Write: %d bytes reported, %d produced, err %v", n, buf.Len(), err)
+	}
+	stream := buf.Bytes()
+	orig := &Inst{Cfg: Cfg{Kind: "map", Rows: 63}, M: &m}
+	rest, k, rerr, perr := restore(orig.Cfg, &chunkReader{data: stream, sizes: []int{1}})
+	if perr != nil || rerr != nil {
+		return fmt.Errorf("restoring the %d-byte stream failed: %v %v", len(stream), rerr, perr)
+	}
+	if k != len(stream) {
+		return fmt.Errorf("Read reported %d bytes for a %d-byte stream", k, len(stream))
+	}
+	same := func(what string) error {
+		if err := sameState(orig, rest, 40, hs); err != nil {
+			return fmt.Errorf("%s: original vs restored: %v", what, err)
+		}
+		if orig.M.GetTreeRows() != rest.M.GetTreeRows() {
+			return fmt.Errorf("%s: GetTreeRows %d vs %d", what, orig.M.GetTreeRows(), rest.M.GetTreeRows())
+		}
+		for _, p := range ep.Targets {
+			if x, y := orig.M.GetHash(p), rest.M.GetHash(p); x != y {
+				return fmt.Errorf("%s: GetHash(%d): %s vs %s", what, p, shortH(x), shortH(y))
+			}
+		}
+		pa, ea := orig.M.Prove(cloneHashes(hs[:1]))
+		pb, eb := rest.M.Prove(cloneHashes(hs[:1]))
+		if (ea == nil) != (eb == nil) || !eqProof(pa, pb) {
+			return fmt.Errorf("%s: Prove of a remembered leaf: %s,%v vs %s,%v", what, proofStr(pa), ea, proofStr(pb), eb)
+		}
+		return nil
+	}
+	if err := same("after restore"); err != nil {
+		return err
+	}
+	if orig.NumLeaves() != high+v.N {
+		return fmt.Errorf("leaf count %d, want %d", orig.NumLeaves(), high+v.N)
+	}
+	// strict prefixes are refused or, if accepted, equal (never the case for a strict prefix of this format)
+	for cut := 0; cut < len(stream); cut++ {
+		in, _, e, pe := restore(orig.Cfg, bytes.NewReader(stream[:cut]))
+		if pe != nil {
+			return fmt.Errorf("restoring the first %d of %d bytes panicked: %v", cut, len(stream), pe)
+		}
+		if e == nil {
+			if err := sameState(orig, in, 40, hs); err != nil {
+				return fmt.Errorf("the first %d of %d bytes were accepted and give a different forest: %v", cut, len(stream), err)
+			}
+		}
+	}
+	// both copies go on: additions only, then the second remembered leaf is spent
+	adds, _ := mkLeavesSalt(9, len(f.Hashes), 3, func(int) bool { return true })
+	for _, in := range []*Inst{orig, rest} {
+		if err := in.M.Modify(append([]u.Leaf(nil), adds...), nil, u.Proof{}); err != nil {
+			return fmt.Errorf("an additions-only block after the restore failed: %v", err)
+		}
+	}
+	if err := same("after an additions-only block"); err != nil {
+		return err
+	}
+	g := f.Clone()
+	applyToModel(g, Block{Add: 3, Salt: 9})
+	gv := g.View()
+	dh := g.HashesOf(req[1:])
+	dp := gv.Proof(dh)
+	edp := u.Proof{Targets: embedAll(dp.Targets, gv, high), Proof: cloneHashes(dp.Proof)}
+	for _, in := range []*Inst{orig, rest} {
+		if err := in.M.Modify(nil, cloneHashes(dh), cloneProof(edp)); err != nil {
+			return fmt.Errorf("spending a remembered leaf after the restore failed: %v", err)
+		}
+	}
+	applyToModel(g, Block{Del: req[1:]})
+	want := append(highRoots(high), g.View().Roots...)
+	if !eqHashes(orig.Roots(), want) {
+		return fmt.Errorf("after the continuation the roots are %s, the embedded reference %s", shortHs(orig.Roots()), shortHs(want))
+	}
+	return same("after spending a remembered leaf")
 }
